@@ -1,2 +1,206 @@
-/- C02 correspondence driver (stub: replaced when the property's model is built) -/
-def main : IO Unit := IO.println "stub"
+import PnVerif.Model.ReqQueue
+import PnVerif.Model.Merge
+/-
+  C02 correspondence driver.
+
+    c02drv nb <rank>   : stdin = the op script of harness/c02_nb.c, stdout = the lines that rank
+                         prints which are determined by the queue model (everything except the
+                         "D …" oracle lines)
+    c02drv unit        : stdin = the requests of harness/c02_unit.c (merge_requests /
+                         type_create_off_len called directly), stdout = the model's answers
+-/
+open PnVerif PnVerif.ReqQueue
+
+namespace C02Drv
+
+def showLead (l : Lead) : String :=
+  s!"{l.c.id}.{l.nonleadOff}.{l.nonleadNum}.{if l.c.toFree then 1 else 0}"
+
+def showQ (nm : String) (q : Q) : String :=
+  s!"{nm}:{q.numLead},{q.numReqs},{q.maxId}[" ++ " ".intercalate (q.lead.map showLead) ++ "]{" ++
+    " ".intercalate (q.nonlead.map (fun r => toString r.leadOff)) ++ "}"
+
+def dump (nc : NC) : String := " | " ++ showQ "P" nc.put ++ " " ++ showQ "G" nc.get
+
+def showInts (l : List Int) : String := if l.isEmpty then "-" else ",".intercalate (l.map toString)
+
+structure H where
+  id : Int := -1
+  erange : Bool := false
+  posted : Bool := false
+  state : Nat := 0
+deriving Inhabited
+
+structure St where
+  begins : List Int := []
+  recsize : Int := 0
+  nc : NC := {}
+  hs : Array H := Array.replicate 128 {}
+  dead : Bool := false
+
+def tokId (st : St) (t : String) : Int :=
+  if t.startsWith "N" then -1
+  else if t.startsWith "U" then (t.drop 1).toString.toInt?.getD 0
+  else match (t.drop 1).toString.toNat? with
+       | some k => (st.hs[k]?.getD {}).id
+       | none => -1
+
+def isRec (v : Nat) : Bool := v == 2 || v == 3
+
+/-- apply the NC_ERANGE of the completed reads that convert out-of-range data -/
+def applyErange (st : St) (done : List Lead) (sts : Option (List Int)) (err : Int) : Option (List Int) × Int :=
+  done.foldl (fun (acc : Option (List Int) × Int) l =>
+    let h := st.hs[l.c.tag]?.getD {}
+    if h.erange then
+      let s' := match acc.1, l.c.status with
+        | some s, some i => some (if s[i]?.getD 0 == 0 then s.set i (-60) else s)
+        | s, _ => s
+      (s', if acc.2 == 0 then -60 else acc.2)
+    else acc) (sts, err)
+
+def markSpecDone (st : St) (hsl : List Nat) : St :=
+  hsl.foldl (fun s h => { s with hs := s.hs.modify h (fun x => if x.posted then { x with state := 1 } else x) }) st
+
+def doWait (st : St) (num : Int) (ids : List Int) (hasst : Bool) : St × WaitRes × Option (List Int) × Int :=
+  let sts := if hasst then some (ids.map (fun _ => (777 : Int))) else none
+  let r := wait st.nc num ids sts
+  let (s2, e2) := if r.err == 0 then applyErange st r.doneGet r.st r.err else (r.st, r.err)
+  -- `state` is the SPEC's notion (exp lists of the script), exactly as in the C harness
+  ({ st with nc := r.nc }, r, s2, e2)
+
+def fmtRes (tag : String) (err : Int) (num : Int) (ids : List Int) (sts : Option (List Int)) (nc : NC) : String :=
+  let arr := if num ≥ 0 then ids else []
+  let s := match sts with | some s => (if num ≥ 0 then showInts s else "-") | none => "-"
+  s!"{tag} err={err} ids={showInts arr} st={s} n={nreqs nc}" ++ dump nc
+
+def step (st : St) (rank : Nat) (line : String) : St × List String :=
+  let toks := (line.trimAscii.toString.splitOn " ").filter (· ≠ "")
+  match toks with
+  | "L" :: _n :: rest =>
+    let vals := rest.map (fun s => s.toInt?.getD 0)
+    ({ st with begins := vals.take 8, recsize := vals.getD 8 0 }, [])
+  | "CASE" :: idx :: _ =>
+    ({ st with nc := {}, hs := Array.replicate 128 {}, dead := false },
+     [s!"CASE {idx} layout " ++ " ".intercalate (st.begins.map toString) ++ s!" {st.recsize}"])
+  | op :: r :: rest =>
+    if r.toNat? != some rank then (st, []) else
+    if op == "END" then (st, ["END"])
+    else if op == "B" then (st, ["B err=0"])
+    else if op == "E" then (st, ["E err=0"])
+    else if st.dead then (st, ["DEAD"])
+    else if op == "P" then
+      match rest with
+      | h :: kind :: var :: api :: zero :: _nsubs :: start0 :: erange :: _mt :: _bl :: _imap :: nreq :: more =>
+        let h := h.toNat?.getD 0
+        let v := var.toNat?.getD 0
+        let z := zero.toNat?.getD 0
+        if z == 1 then (st, [s!"P h{h} err=0 id=-1" ++ dump st.nc])
+        else if z == 2 then (st, [s!"P h{h} err=* id=-1" ++ dump st.nc])
+        else
+          let begin := st.begins.getD v 0
+          let nd := [2, 1, 2, 3, 1, 2, 0, 1].getD v 0
+          -- number of non-lead requests: one per record of every non-empty sub-request
+          let nums := more.map (fun s => s.toInt?.getD 0)
+          let nr := nreq.toNat?.getD 1
+          let subs := (List.range nr).map (fun i =>
+            let ct := (nums.drop (i * 2 * nd + nd)).take nd
+            let ne := ct.foldl (· * ·) 1
+            if ne == 0 then 0 else if isRec v then (ct.getD 0 1).toNat else 1)
+          let nsub := subs.foldl (· + ·) 0
+          let isPut := kind != "get"
+          let s0 := start0.toInt?.getD 0
+          let reqOff := if isPut then begin + (if isRec v then st.recsize * s0 else 0) else begin
+          let sorted := isPut || api == "n"
+          let q := if isPut then st.nc.put else st.nc.get
+          let (q', id) := q.post (if isPut then 0 else 1) sorted begin reqOff (-1) h (List.replicate nsub h)
+          let nc' := if isPut then { st.nc with put := q' } else { st.nc with get := q' }
+          let st' := { st with nc := nc', hs := st.hs.modify h (fun _ => { id := id, erange := erange == "1", posted := true }) }
+          (st', [s!"P h{h} err=0 id={id}" ++ dump nc'])
+      | _ => (st, ["bad-P"])
+    else if op == "W" then
+      match rest with
+      | _mode :: num :: hasst :: _expn :: ntok :: more =>
+        let num := num.toInt?.getD 0
+        let nt := ntok.toNat?.getD 0
+        let tks := more.take nt
+        let ids := tks.map (tokId st)
+        let (st1, r, s2, e2) := doWait st num ids (hasst == "1")
+        let l1 := fmtRes "W" e2 num r.ids s2 st1.nc
+        if r.err == NC_EINVAL_REQUEST then
+          -- probes, then cancel everything, case is dead
+          let hsNamed := (tks.filter (·.startsWith "h")).map (fun t => (t.drop 1).toString.toNat?.getD 0)
+          let (st2, lines, _) := hsNamed.foldl (fun (acc : St × List String × List Nat) h =>
+            let (s, ls, seen) := acc
+            if seen.contains h then acc else
+            let hh := s.hs[h]?.getD {}
+            if !hh.posted || hh.state != 0 then (s, ls, h :: seen) else
+            let (s', r', sx, ex) := doWait s 1 [hh.id] true
+            let idn := r'.ids.headD 0
+            let stn := (sx.getD []).headD 0
+            let s' := if ex != NC_EINVAL_REQUEST && idn == -1 then markSpecDone s' [h] else s'
+            (s', ls ++ [s!"R h{h} err={ex} ids={idn} st={stn} n={nreqs s'.nc}" ++ dump s'.nc], h :: seen)) (st1, [], [])
+          let c := cancel st2.nc (-1) [] none
+          let st3 := { st2 with nc := c.nc, dead := true }
+          (st3, [l1] ++ lines ++ [s!"K err={c.err} n={nreqs c.nc}" ++ dump c.nc])
+        else
+          let rest2 := more.drop nt
+          let nexp := (rest2.headD "0").toNat?.getD 0
+          let exps := ((rest2.drop 1).take nexp).map (fun s => s.toNat?.getD 0)
+          (markSpecDone st1 exps, [l1])
+      | _ => (st, ["bad-W"])
+    else if op == "X" then
+      match rest with
+      | num :: hasst :: _expn :: ntok :: more =>
+        let num := num.toInt?.getD 0
+        let nt := ntok.toNat?.getD 0
+        let ids := (more.take nt).map (tokId st)
+        let sts := if hasst == "1" then some (ids.map (fun _ => (777 : Int))) else none
+        let c := cancel st.nc num ids sts
+        let st' := { st with nc := c.nc }
+        (st', [fmtRes "X" c.err num c.ids c.st c.nc])
+      | _ => (st, ["bad-X"])
+    else (st, [])
+  | _ => (st, [])
+
+partial def loopNb (h : IO.FS.Stream) (out : IO.FS.Stream) (rank : Nat) (st : St) : IO Unit := do
+  let line ← h.getLine
+  if line.isEmpty then return ()
+  let (st', ls) := step st rank line
+  for l in ls do out.putStrLn l
+  loopNb h out rank st'
+
+/-! unit stream -/
+open PnVerif.Merge in
+def showSegs (l : List Seg) : String := " ".intercalate (l.map (fun s => s!"{s.off},{s.len},{s.buf}"))
+def showBlocks (l : List (Int × Int)) : String := " ".intercalate (l.map (fun p => s!"{p.1},{p.2}"))
+
+open PnVerif.Merge in
+def parseSegs : List Int → List Seg
+  | o :: l :: b :: rest => ⟨o, l, b⟩ :: parseSegs rest
+  | _ => []
+
+open PnVerif.Merge in
+def stepUnit (line : String) : String :=
+  let toks := (line.trimAscii.toString.splitOn " ").filter (· ≠ "")
+  match toks with
+  | "M" :: _n :: rest =>
+    let segs := parseSegs (rest.map (fun s => s.toInt?.getD 0))
+    let m := mergeRequests segs
+    s!"M {m.length} " ++ showSegs m ++ " F " ++ showBlocks (fileType m) ++ " B " ++ showBlocks (bufType m)
+  | _ => "bad-op"
+
+partial def loopUnit (h : IO.FS.Stream) (out : IO.FS.Stream) : IO Unit := do
+  let line ← h.getLine
+  if line.isEmpty then return ()
+  out.putStrLn (stepUnit line)
+  loopUnit h out
+
+end C02Drv
+
+def main (args : List String) : IO Unit := do
+  let out ← IO.getStdout
+  let inp ← IO.getStdin
+  match args with
+  | ["nb", r] => C02Drv.loopNb inp out (r.toNat?.getD 0) {}
+  | ["unit"] => C02Drv.loopUnit inp out
+  | _ => IO.eprintln "usage: c02drv nb <rank> | unit"
